@@ -170,5 +170,5 @@ SUBS = {"step": Sub(predicate, strategy=cases)}
 
 
 def jobs(tier):
-    n = 60 if tier == "quick" else 1500
+    n = 60 if tier == "quick" else 3500
     return [{"sub": "step", "n": n, "shard": i} for i in range(16)]
